@@ -35,10 +35,11 @@ def elem_choices(display_only):
 
 class Gen:
     def __init__(self, rng, display_only=False, allow_redef=True, allow_odo=True, allow_filler=True,
-                 redef_in_occurs=False, occurs_elem_in_union=False, odo_in_table=False, max_depth=4, max_kids=5):
+                 redef_in_occurs=False, occurs_elem_in_union=False, odo_in_table=False, odo_in_union=False, max_depth=4, max_kids=5):
         self.rng, self.display_only = rng, display_only
         self.allow_redef, self.allow_odo, self.allow_filler = allow_redef, allow_odo, allow_filler
         self.redef_in_occurs, self.occurs_elem_in_union, self.odo_in_table = redef_in_occurs, occurs_elem_in_union, odo_in_table
+        self.odo_in_union = odo_in_union
         self.max_depth, self.max_kids = max_depth, max_kids
         self.next_id = 1
         self.counters = []          # ids of items usable as ODO counters (elementary, unsigned digits, never repeated)
@@ -56,7 +57,7 @@ class Gen:
         r = rng.random()
         if r < 0.18 and (not in_union or self.occurs_elem_in_union):
             node["occ"] = ("times", rng.randint(1, 4))
-        elif r < 0.30 and self.allow_odo and self.counters and not in_union and (not in_table or self.odo_in_table):
+        elif r < 0.30 and self.allow_odo and self.counters and (not in_union or self.odo_in_union) and (not in_table or self.odo_in_table):
             node["occ"] = ("odo", rng.choice(self.counters), rng.randint(1, 4))
         elif self.allow_filler and rng.random() < 0.12:
             node["filler"] = True
@@ -75,7 +76,7 @@ class Gen:
             r = rng.random()
             if r < 0.25 and not in_union:
                 node["occ"] = ("times", rng.randint(1, 3))
-            elif r < 0.35 and self.allow_odo and self.counters and not in_union and (not in_table or self.odo_in_table):
+            elif r < 0.35 and self.allow_odo and self.counters and (not in_union or self.odo_in_union) and (not in_table or self.odo_in_table):
                 node["occ"] = ("odo", rng.choice(self.counters), rng.randint(1, 3))
         table = in_table or node["occ"] is not None
         nk = rng.randint(1, self.max_kids)
@@ -97,7 +98,7 @@ class Gen:
 
     def add_redefiner(self, parent, depth, table):
         rng = self.rng
-        bases = [k for k in parent["kids"] if k["redef"] is None and not k["filler"] and not contains_odo(k)
+        bases = [k for k in parent["kids"] if k["redef"] is None and not k["filler"] and (self.odo_in_union or not contains_odo(k))
                  and (k["occ"] is None or k["kind"] == "group" or self.occurs_elem_in_union)
                  and fixed_extent(k) > 0 and not k.get("is_counter")]
         if not bases:
